@@ -24,12 +24,25 @@ def generate(seed, tier):
     import random
     r = random.Random("%s/mode" % seed)
     update_only = r.random() < 0.3
-    return _hist.generate_hist(
+    two_keys = r.random() < 0.3
+    # with two unique fields the second key is tied to the first in half of those runs
+    # (then "one live document per key" is checkable) and independent in the other half
+    k2_indep = 0.5 if (two_keys and r.random() < 0.5) else 0.0
+    if k2_indep:
+        update_only = False
+    rec = _hist.generate_hist(
         ID, seed,
         gen_kwargs={"ntx": (2, 6), "update_only": update_only, "schema_changes": r.random() < 0.3,
                     "p_delete": r.choice((0.2, 0.35, 0.5))},
-        cfg_kwargs={"want": ["k2"] if r.random() < 0.2 else None},
+        cfg_kwargs={"want": ["k2"] if two_keys else None},
+        docgen_kwargs={"k2_independent_p": k2_indep},
         update_only=update_only)
+    from whoosim.session import cfg_from_record
+    from whoosim import queries as Q
+    qr = random.Random("%s/queries" % seed)
+    cfg = cfg_from_record(rec["config"])
+    rec["queries"] = [Q.gen_shaped_query(qr, cfg) for _ in range(2)] + [Q.gen_query(qr, cfg, depth=2, simple=True) for _ in range(2)]
+    return rec
 
 
 def _uids(results):
@@ -73,7 +86,21 @@ def check_live_views(actor, where):
     finally:
         r.close()
     rng = s.k.stream("probe")
+    from whoosim import queries as Q
     with actor.ix.searcher() as srch:
+        # "searches of any kind": generated boolean trees (intersections, negations, unions)
+        for spec in (getattr(actor, "probe_queries", None) or []):
+            exp = sorted(Q.evaluate(spec, docs, mi.schema))
+            try:
+                got = sorted(h["u"] for h in srch.search(Q.build(spec, mi.schema), limit=None))
+                got2 = sorted(srch.stored_fields(dn)["u"] for dn in srch.docs_for_query(Q.build(spec, mi.schema)))
+            except (SimAbort, SimKilled, HarnessError):
+                raise
+            except Exception as e:  # noqa
+                raise Violation("search_raised", "%s: %s raised %s: %s" % (where, Q.show(spec), type(e).__name__, e), sig="search_raised:" + exc_sig(e))
+            if got != exp or got2 != exp:
+                raise Violation("deleted_invisible:query", "%s: %s returned uids %s / docs_for_query %s, the live documents that match are %s"
+                                % (where, Q.show(spec), got[:12], got2[:12], exp[:12]), sig="deleted_invisible:query")
         def run(q, **kw):
             try:
                 return _uids(srch.search(q, limit=None, **kw))
@@ -114,6 +141,9 @@ def check_live_views(actor, where):
 def make_hooks(s, record):
     state = {"gen_before": None}
 
+    def on_op(actor, i, op):
+        actor.probe_queries = record.get("queries")
+
     def one_per_key(actor):
         if record.get("update_only"):
             keys = {}
@@ -151,9 +181,6 @@ def make_hooks(s, record):
             raise Violation("abort_releases_lock", "writer after %s got LockError" % how)
         w.cancel()
 
-    def on_op(actor, i, op):
-        if op[0] == "restart" and actor.w is None and actor.ix is not None:
-            s.count("restart_checks")
 
     def finish(actor):
         # durability: a brand-new process sees exactly the model from disk alone
